@@ -27,7 +27,7 @@ for d in dirs:
     patch=open(pf).read()
     files=sorted(set(re.findall(r'^\+\+\+ b/wn/(\S+)',patch,re.M)))
     agent=re.search(r'/R(\d\d)', d).group(1)
-    pids=set(['C'+agent, 'C%02d'%(int(agent)+1)])
+    pids=set(['C'+agent, 'C%02d'%(int(agent)+1)]) if int(agent) <= 19 else set()      # R21… = second batch, by area
     for f in files: pids|=set(MAP.get(os.path.basename(f),[]))
     a=subprocess.run(['git','-C',REPO,'apply',pf],capture_output=True,text=True)
     if a.returncode!=0:
